@@ -410,7 +410,7 @@ package gen
 
 //@ iface Field.Read
 //@   requires external(r)
-//@   modifies obj(self), heap("[]int64"), heap("[]string"), heap("[]bool"), heap("[]float32"), heap("[]float64"), heap("parquet.readCounter"), rfault
+//@   modifies obj(self), heap("[]int64"), heap("[]string"), heap("[]bool"), heap("[]float32"), heap("[]float64"), heap("parquet.readCounter"), srcPos, rfault
 //@   ensures[C10] err == nil ==> (rfault ==> old(rfault))
 
 //@ iface Field.Scan
@@ -433,7 +433,8 @@ package gen
 
 //@ func NewParquetReader
 //@   requires external(r)
-//@   modifies allheaps, rfault
+//@   modifies allheaps, srcPos, rfault
+//@   ensures[C11] err == nil ==> srcSize >= 8 && srcMagic(srcSize - 4) && srcLE32(srcSize - 8) + 8 <= srcSize
 //@   ensures err == nil ==> readerOK(res0)
 //@   ensures[C10] err == nil ==> (rfault ==> old(rfault))
 //@ loop NewParquetReader#1
@@ -443,7 +444,7 @@ package gen
 
 //@ func (*ParquetReader).readRowGroup
 //@   requires readerOK(p)
-//@   modifies p, anyobj("GEN.Field"), heap("map[string][]parquet.Page"), heap("[]int64"), heap("[]string"), heap("[]bool"), heap("[]float32"), heap("[]float64"), heap("parquet.readCounter"), rfault
+//@   modifies p, anyobj("GEN.Field"), heap("map[string][]parquet.Page"), heap("[]int64"), heap("[]string"), heap("[]bool"), heap("[]float32"), heap("[]float64"), heap("parquet.readCounter"), srcPos, rfault
 //@   ensures p.r == old(p.r)
 //@   ensures[C10] err == nil ==> (rfault ==> old(rfault))
 //@ loop (*ParquetReader).readRowGroup#1
@@ -451,7 +452,7 @@ package gen
 
 //@ func (*ParquetReader).Next
 //@   requires readerOK(p)
-//@   modifies p, anyobj("GEN.Field"), heap("map[string][]parquet.Page"), heap("[]int64"), heap("[]string"), heap("[]bool"), heap("[]float32"), heap("[]float64"), heap("parquet.readCounter"), rfault
+//@   modifies p, anyobj("GEN.Field"), heap("map[string][]parquet.Page"), heap("[]int64"), heap("[]string"), heap("[]bool"), heap("[]float32"), heap("[]float64"), heap("parquet.readCounter"), srcPos, rfault
 //@   ensures p.r == old(p.r)
 //@   ensures[C10] rfault && !old(rfault) ==> !res && p.err != nil
 
